@@ -170,6 +170,12 @@ def ncf2uamiv(ncffile, outpath):
         time_e = time_s.copy() + tincr
         date_e += (time_e // 24).astype('i')
         time_e -= (time_e // 24) * 24
+        # the day after the last day of a year is day 1 of the next year
+        yyyy = ncffile.variables['TFLAG'][:, 0, 0] // 1000
+        ylen = 365 + ((yyyy % 4 == 0) &
+                      ((yyyy % 100 != 0) | (yyyy % 400 == 0)))
+        over = (date_e % 1000) > ylen
+        date_e[over] = (date_e[over] // 1000 + 1) % 100 * 1000 + 1
     time_hdr['ibdate'] = date_s
     time_hdr['btime'] = time_s
     time_hdr['iedate'] = date_e
